@@ -409,7 +409,7 @@ var (
 
 func elkCorpus() []string {
 	corpusOnce.Do(func() {
-		filepath.WalkDir("/repo", func(p string, d os.DirEntry, err error) error {
+		filepath.WalkDir(repoDir, func(p string, d os.DirEntry, err error) error {
 			if err != nil {
 				return nil
 			}
